@@ -169,8 +169,12 @@ var c12Calls = []c12Call{
 	{"Unsafe(SafeFormatter value)", func() string { return string(redact.Sprintf("to %v", redact.Unsafe(safeFmtT{"k", "sec"}))) }},
 	{"SafeMessager value", func() string { return string(redact.Sprintf("%v|%s", safeMsgT{"sec"}, []interface{}{safeMsgT{"x"}})) }},
 	{"Unsafe(SafeMessager value)", func() string { return string(redact.Sprintf("%v", redact.Unsafe(safeMsgT{"sec"}))) }},
-	{"SafeValue and Stringer types", func() string { return string(redact.Sprintf("%v %v %v", safeT("pub"), strT{"s"}, time.Duration(1500)*time.Millisecond)) }},
-	{"Unsafe(SafeValue and Stringer types)", func() string { return string(redact.Sprintf("%v %v", redact.Unsafe(safeT("pub")), redact.Unsafe(strT{"s"}))) }},
+	{"SafeValue and Stringer types", func() string {
+		return string(redact.Sprintf("%v %v %v", safeT("pub"), strT{"s"}, time.Duration(1500)*time.Millisecond))
+	}},
+	{"Unsafe(SafeValue and Stringer types)", func() string {
+		return string(redact.Sprintf("%v %v", redact.Unsafe(safeT("pub")), redact.Unsafe(strT{"s"})))
+	}},
 	{"hex/quote", func() string { return string(redact.Sprintf("%x % x %q %c", "hi", []byte("yo"), "q", 'c')) }},
 	{"Sprint spacing", func() string { return string(redact.Sprint(1, 2, "a", "b", 3.5, nil)) }},
 	{"Redactable operand", func() string { return string(redact.Sprintf("%v.", redact.RedactableString("r"+mStart+"x"+mEnd))) }},
@@ -359,6 +363,7 @@ var (
 	c12Refs                    []string // references of the active configuration
 	c12RefsNoHook, c12RefsHook []string
 	c12Setup                   sync.Once
+	c12InitViolation           string
 )
 
 func c12Init() {
@@ -383,8 +388,10 @@ func c12Init() {
 		// sanity: a second cold run gives the same reference (determinism of the alphabet)
 		for i, cl := range c12Calls {
 			vsync.Clear()
-			if r := cl.Run(); r != c12Refs[i] {
-				panic(fmt.Sprintf("call %q is not deterministic: %q vs %q", cl.Name, r, c12Refs[i]))
+			if r := cl.Run(); r != c12RefsNoHook[i] && c12InitViolation == "" {
+				// the whole alphabet ran in between: the result depends on earlier calls although
+				// every printer was new both times (state kept outside the pool)
+				c12InitViolation = fmt.Sprintf("call %q returns %q from a cold pool at process start but %q from a cold pool after the other calls of the alphabet have run once: its result depends on earlier calls through state kept outside the printer pool", cl.Name, c12RefsNoHook[i], r)
 			}
 		}
 		c12Ch.quiet = false
@@ -691,6 +698,12 @@ func c12Worker(args []string) int {
 	c12Init()
 	var st c12Stats
 	st.Exhaustive = true
+	if c12InitViolation != "" && shard == 0 {
+		st.Violations = append(st.Violations, c12InitViolation)
+		st.Cases = append(st.Cases, mustJSON(map[string]string{"init": c12InitViolation}))
+		json.NewEncoder(os.Stdout).Encode(st)
+		return 0
+	}
 	switch mode {
 	case "hist", "hist+hook":
 		var first []int
